@@ -1374,7 +1374,11 @@ class Interp:
     def s_Expr(self, st, env, module):
         if isinstance(st.value, ast.Constant):
             return None
-        self.eval(st.value, env, module)
+        v = self.eval(st.value, env, module)
+        if isinstance(v, Obj) and isinstance(st.value, ast.Call) and isinstance(st.value.func, ast.Name) and isinstance(v.cls, RepoClass) and st.value.func.id == v.cls.name:
+            # S4': an object constructed by a bare expression statement is unreferenced and collected at once
+            # (CPython reference counting): weak references to it are dead from here on
+            v.dead = True
 
     def s_Pass(self, st, env, module):
         return None
